@@ -149,7 +149,7 @@ class Panel(JupyterMixin):
         else:
             title_text.align(self.title_align, width - 4, character=box.top)
             yield Segment(box.top_left + box.top, border_style)
-            yield from console.render(title_text)
+            yield from title_text.render(console)
             yield Segment(box.top + box.top_right, border_style)
 
         yield new_line
